@@ -3,8 +3,8 @@ package mpx
 import (
 	"fmt"
 
-	"github.com/basecomplextech/baselibrary/bin"
 	"github.com/basecomplextech/baselibrary/alloc"
+	"github.com/basecomplextech/baselibrary/bin"
 	"github.com/basecomplextech/baselibrary/status"
 	"github.com/basecomplextech/spec/proto/pmpx"
 	"github.com/basecomplextech/spec/zzverif/vexp"
@@ -153,7 +153,9 @@ func init() {
 		{"H2.open-close-batch", "receive(batch(open A+data, close A)) || handler || send loop",
 			func() []pmpx.Message { return []pmpx.Message{vBatchOpenClose(id7, []byte("p"))} }, 1, false, false},
 		{"H3.duplicate-open", "receive(open A, open A again): the duplicate is a connection error and must not start a second handler",
-			func() []pmpx.Message { return []pmpx.Message{vOpen(id7, []byte("p"), 1024), vOpen(id7, []byte("q"), 1024)} }, 1, true, true},
+			func() []pmpx.Message {
+				return []pmpx.Message{vOpen(id7, []byte("p"), 1024), vOpen(id7, []byte("q"), 1024)}
+			}, 1, true, true},
 		{"H4.conn-loss", "receive(open A) || handler waits for its context || connection closes",
 			func() []pmpx.Message { return []pmpx.Message{vOpen(id7, []byte("p"), 1024)} }, 1, false, true},
 	}
